@@ -320,9 +320,9 @@ func (g *coreGen) containerStmt(d int) Node {
 }
 
 // ---- match expressions (spec/JqCore.tla, "match"): literal, name and array patterns; expression and block arms.
-// Names bound by a pattern alias the cells of the subject in the implementation, while the model binds by
-// value: a subject that is a plain variable / element / $ is passed through idf() (a fresh value) unless
-// every arm only reads; bound names are never assigned to.
+// Names bound by a pattern hold values (scalars copied, containers shared): arms also assign to them, and
+// the subject is often a plain variable, an element or $, so that a binding that aliased the subject's
+// cell would show.
 
 func (g *coreGen) litPat() Node {
 	switch g.r.Intn(6) {
@@ -418,7 +418,18 @@ func (g *coreGen) matchExpr(d int) Node {
 				for _, n := range readable {
 					args = append(args, map[string]any(cn("var", "n", n)))
 				}
-				body["b"] = append([]any{map[string]any(cn("print", "args", args))}, body["b"].([]any)...)
+				pre := []any{map[string]any(cn("print", "args", args))}
+				if g.r.Intn(2) == 0 {
+					// assigning to a bound name changes neither the subject nor anything else
+					n := readable[g.r.Intn(len(readable))]
+					if g.r.Intn(2) == 0 {
+						pre = append(pre, map[string]any(cn("expr", "e", map[string]any(cn("asg", "n", n, "op", "=", "e", map[string]any(g.intExpr(1)))))))
+					} else {
+						pre = append(pre, map[string]any(cn("expr", "e", map[string]any(cn("inc", "n", n, "op", g.pick("++", "--"), "post", true)))))
+					}
+					pre = append(pre, map[string]any(cn("print", "args", []any{map[string]any(cn("str", "v", "m2")), map[string]any(cn("var", "n", n))})))
+				}
+				body["b"] = append(pre, body["b"].([]any)...)
 			}
 			c = cn("case", "pats", pats, "bk", "block", "b", map[string]any(body))
 			impure = true
@@ -441,9 +452,7 @@ func (g *coreGen) matchExpr(d int) Node {
 		g.bound = saved
 		cases = append(cases, map[string]any(c))
 	}
-	if direct && binds && impure {
-		subj = cn("call", "f", "idf", "args", []any{map[string]any(subj)})
-	}
+	_, _, _ = direct, binds, impure
 	return cn("match", "e", map[string]any(subj), "cases", cases)
 }
 
